@@ -358,6 +358,42 @@ def extract_resolve_constants(fns):
     return dict(env=env, eval=ev, tests=tests, store=store)
 
 
+def extract_register_aliases(fns):
+    """resolve_register_aliases: the register keys, where the fields of the rebuilt item come from, the test that makes a field an
+    alias, the value it gets, and how the item is rebuilt (ALL fields, in order)."""
+    f = fns.get('resolve_register_aliases')
+    if f is None:
+        fail(None, 'resolve_register_aliases not found')
+    regs = None
+    for st in f.body:
+        if isinstance(st, ast.Assign) and ast.unparse(st.targets[0]) == 'REGS' and isinstance(st.value, ast.Set) \
+                and all(isinstance(e, ast.Constant) and isinstance(e.value, str) for e in st.value.elts):
+            regs = sorted(e.value for e in st.value.elts)
+    if regs is None:
+        fail(f, 'REGS = {..}')
+    loop = loop_of(f)
+    body = strip_doc(loop.body)
+    texts = [ast.unparse(st) for st in body]
+    src = [t for t in texts if t.startswith('d = ')]
+    if len(src) != 1:
+        fail(loop, 'd = <fields of the item>')
+    inner = [st for st in body if isinstance(st, ast.For)]
+    if len(inner) != 1 or ast.unparse(inner[0].target) != '(key, value)' or ast.unparse(inner[0].iter) != 'd.items()':
+        fail(loop, 'for key, value in d.items()')
+    ib = strip_doc(inner[0].body)
+    itexts = [ast.unparse(st) for st in ib]
+    tests = [ast.unparse(st.test) for st in ib if isinstance(st, ast.If) and not st.orelse and len(st.body) == 1
+             and isinstance(st.body[0], ast.Continue)]
+    assigns = [t for t in itexts if t.startswith(('reg = ', 'resolved_regs[key] = '))]
+    rebuild = [t for t in texts if t.startswith('new_item = ')]
+    if len(rebuild) != 1:
+        fail(loop, 'new_item = ..')
+    keeps = [ast.unparse(st.test) for st in body if isinstance(st, ast.If) and not st.orelse
+             and [ast.unparse(x) for x in strip_doc(st.body)] == ['new_items.append(item)', 'continue']]
+    return dict(regs=regs, src=src[0], tests=tests, assigns=assigns, update='d.update(resolved_regs)' in texts,
+                rebuild=rebuild[0], keeps=keeps, appends='new_items.append(new_item)' in texts)
+
+
 def guarded(notes, name, fn, default):
     try:
         return fn()
@@ -385,6 +421,8 @@ def emit(repo):
                  dict(env=[], auipc='0', plain='0', skip_ok=False, advance=[], store=False))
     rl = guarded(notes, 'resolve_labels', lambda: extract_resolve_labels(fns), dict(dup=False, value='?', start=False, fresh=False))
     rc = guarded(notes, 'resolve_constants', lambda: extract_resolve_constants(fns), dict(env=[], eval=[], tests=[], store=False))
+    ra = guarded(notes, 'resolve_register_aliases', lambda: extract_register_aliases(fns),
+                 dict(regs=[], src='?', tests=[], assigns=[], update=False, rebuild='?', keeps=[], appends=False))
     b = lambda x: 'true' if x else 'false'
     out = [HEADER.format(src='asm.py (Expr.eval methods, is_position_relative, is_settled, the guards of transform_compressible, '
                              'resolve_immediates, resolve_labels, resolve_constants)')]
@@ -432,6 +470,15 @@ def emit(repo):
     out.append('Definition rc_eval_args : list string := {}.'.format(slist(rc['eval'])))
     out.append('Definition rc_tests : list string := {}.'.format(slist(rc['tests'])))
     out.append('Definition rc_stores : bool := {}.'.format(b(rc['store'])))
+    out.append('\n(* ---- resolve_register_aliases ---- *)')
+    out.append('Definition ra_regs : list string := {}.'.format(slist(ra['regs'])))
+    out.append('Definition ra_fields_from : string := {}.'.format(slit(ra['src'])))
+    out.append('Definition ra_skip_tests : list string := {}.'.format(slist(ra['tests'])))
+    out.append('Definition ra_assigns : list string := {}.'.format(slist(ra['assigns'])))
+    out.append('Definition ra_updates_fields : bool := {}.'.format(b(ra['update'])))
+    out.append('Definition ra_rebuild : string := {}.'.format(slit(ra['rebuild'])))
+    out.append('Definition ra_keeps_item_when : list string := {}.'.format(slist(ra['keeps'])))
+    out.append('Definition ra_appends_rebuilt : bool := {}.'.format(b(ra['appends'])))
     return '\n'.join(out) + '\n'
 
 
